@@ -129,6 +129,20 @@ CHECKS = {
         note='Bit-identical comparison on the CPU backend; fingerprints include nested container key sets and deleted '
              'buffers; rank >= 1 leaves for the rotation-based aggregators.',
         design='5/C10'),
+    'C11': dict(
+        technique='TLA+ spec Quantizer.tla: outcome sets and exact probabilities of the stochastic quantizers (rationals, '
+                  'the code\'s degenerate branches) and the aggregators\' key discipline as a term algebra, model-checked by '
+                  'TLC; every emitted case replayed statistically on 20 000 coordinates against the exact probability; '
+                  'aggregators replayed for finiteness, error bound, fresh randomness and bit accounting',
+        text='TLC proves E[output] = input, neighbouring grid levels inside [lo, hi] and identity on the grid for every '
+             'level count 2..5 and every value on a 1/12 grid (lo = hi included), and that no key is reused across '
+             'clients and rounds (two deviations reported); for each case every coordinate of the real quantizer must '
+             'lie in the outcome set and the frequency of "ceil" within the Hoeffding radius (delta 1e-12) of the exact '
+             'probability; all aggregators are run on constant / zero / size-1 / 1e30-range leaves, for three rounds '
+             'with weighted clients and with twin clients.',
+        note='Unbiasedness of the implementation is established statistically, not symbolically; TernGrad on symmetric '
+             'vectors with rational standard deviation.',
+        design='5/C11'),
     'C12': dict(
         technique='TLA+ spec FedRound.tla with a proximal weight model-checked by TLC; FedRoundOracle computes the exact '
                   'FedAvg / FedProx(mu) / full-batch-step parameters for random exact-island instances; the real fed_prox, '
